@@ -9,13 +9,14 @@ from hypothesis import strategies as st
 from .. import absval, gens, msgcheck, rfc4515
 from ..engine import QUICK, THOROUGH, Ctx, Part, Property, Violation
 
-EDIT_ALPHABET = list("()&|!=*\\:;~<>.- \n\r\t\x00\x7fa01é\udc80\udcff'\",\ud800\udc00")
+EDIT_ALPHABET = list("()&|!=*\\:;~<>.- \n\r\t\x00\x7fa01é\udc80\udcff'\",\ud800\udc00\u0663\uff11\u00b2\u0301\u212b\u00df")
 _ALPHA = st.one_of(
     st.sampled_from(list("()&|!=*\\:;~<>.-")),
     st.sampled_from(list("()&|!=*\\:;~<>.- \n\r\t\x00\x7f")),
     st.sampled_from(list("abcdnDNxyz0123456789")),
     st.sampled_from(["\udc80", "\udcff", "\udcc3", "é", "€", "\U0001f600", "\ud800", "\udbff", "\udc00", "\udc7f", "\udfff"]),
     st.characters(),
+    st.sampled_from(gens.NORMALISATION_CHARS),
 )
 
 
